@@ -261,9 +261,11 @@ async def probe_started(out, binary, wd, idx, desc, doc, oport, cls):
                 c.write(b"hello")
                 await c.drain()
                 try:
-                    await c.read_some(4096, timeout=5)
+                    # (a mutant can route the request to an upstream that does not exist; the QUIC connector then only gives up
+                    # after its 30 s handshake timeout - that is waiting, not hanging)
+                    await c.read_some(4096, timeout=40)
                 except asyncio.TimeoutError:
-                    out.violation("accepted configuration: a well-formed request is neither answered nor closed within 5 s [%s]" % cls, {"mutation": desc, "listener": name})
+                    out.violation("accepted configuration: a well-formed request is neither answered nor closed within 40 s [%s]" % cls, {"mutation": desc, "listener": name})
                 except Exception:
                     pass
             finally:
